@@ -48,7 +48,7 @@ typedef struct {
     int used, op, var, api, mt, bl, imap, nsub, apikind;
     MPI_Offset st[MAXSUB][3], ct[MAXSUB][3];
     size_t nelems, memelems, esize, bytes;
-    unsigned char *mem, *buf, *orig;
+    unsigned char *mem, *buf, *orig, *keep;   /* keep = what the caller put into the buffer after a bput was posted */
     MPI_Datatype etype, buftype; MPI_Offset bufcount; int free_type;
     int id, queued, state; /* 0 pending 1 completed 2 cancelled */
 } Req;
@@ -122,7 +122,7 @@ static void dump_state(void)
 static void free_req(Req *r)
 {
     if (!r->used) return;
-    free(r->mem); free(r->orig);
+    free(r->mem); free(r->orig); free(r->keep);
     if (r->free_type) MPI_Type_free(&r->buftype);
     memset(r, 0, sizeof(*r));
 }
@@ -396,6 +396,7 @@ int main(int argc, char **argv)
                     /* the data has been captured: the caller may overwrite its buffer right away */
                     if (memcmp(r->buf, r->orig, r->bytes)) fprintf(out, "D putbuf-changed h%d after-bput-post\n", h);
                     for (m = 0; m < r->bytes; m++) r->buf[m] ^= 0x3C;
+                    r->keep = (unsigned char *)malloc(r->bytes + 1); memcpy(r->keep, r->buf, r->bytes);
                 }
                 if (!guards_ok(r)) fprintf(out, "D guard-overwritten h%d after-post\n", h);
             }
@@ -422,6 +423,8 @@ int main(int argc, char **argv)
                 if (num >= 0 && (ids[i] != NC_REQ_NULL || st[i] != NC_NOERR)) fprintf(out, "D id-or-status h%d id=%d st=%d\n", hs[i], ids[i], st[i]);
                 r->state = isw ? 1 : 2;
                 if (r->op == 'I' && memcmp(r->buf, r->orig, r->bytes)) fprintf(out, "D putbuf-changed h%d after-%s\n", hs[i], isw ? "wait" : "cancel");
+                /* a buffered put handed its data over at posting time: the library must never touch the caller's buffer again */
+                if (r->op == 'B' && r->keep && memcmp(r->buf, r->keep, r->bytes)) fprintf(out, "D bput-buffer-touched h%d after-%s\n", hs[i], isw ? "wait" : "cancel");
                 if (r->op == 'G' && isw) check_read(hs[i], r);
                 if (r->op == 'G' && !isw) { size_t k; for (k = 0; k < r->bytes; k++) if (r->buf[k] != 0xEE) { fprintf(out, "D cancelled-get-modified h%d\n", hs[i]); break; } }
                 if (!guards_ok(r)) fprintf(out, "D guard-overwritten h%d after-%s\n", hs[i], isw ? "wait" : "cancel");
